@@ -2,7 +2,8 @@ import PolyVerif.Base.StrBuild
 import PolyVerif.Model.Location
 /-
 Model of the GenBank WRITER of poly/io/genbank (property C03), as the code is after the fix
-commits c2653c4 (sorted keys), 37caad5 (REMARK written) and 3b69570 (continuation indent 12):
+commits c2653c4 (sorted keys), 37caad5 (REMARK written), 3b69570 (continuation indent 12) and be39eee
+(a reference's own number is written when it is set):
 
   poly.Sequence / Meta / Locus / Reference / Feature  ↦ `Sequence` / `Meta` / `Locus` / `Reference` / `Feature`
   genbank.Build                    ↦ `build`
@@ -103,7 +104,8 @@ def buildFeatureString (feature : Feature) (order : List Nat) : Str :=
 def buildReferences : Nat → List Reference → Str
   | _, [] => []
   | i, reference :: rest =>
-    buildMetaString "REFERENCE".toList (itoa (i + 1) ++ "  ".toList ++ reference.range)
+    let referenceNumber := if reference.index = [] then itoa (i + 1) else reference.index
+    buildMetaString "REFERENCE".toList (referenceNumber ++ "  ".toList ++ reference.range)
     ++ (if reference.authors ≠ [] then buildMetaString "  AUTHORS".toList reference.authors else [])
     ++ (if reference.title ≠ [] then buildMetaString "  TITLE".toList reference.title else [])
     ++ (if reference.journal ≠ [] then buildMetaString "  JOURNAL".toList reference.journal else [])
